@@ -29,8 +29,10 @@ LEVEL_TEXT = ("Machine-checked proof (Coq, closed under the global context), for
               "checking translator, a differential run against real Packetizer objects and real loopback sessions.")
 LEVEL_NOTE = ("Trusted: Coq kernel + vm_compute; hand-written model coq/Model/C10.v validated by the correspondence "
               "run; gen/c10.py (AST shape check + thresholds); the transport-level model (titer) abstracts the key "
-              "exchange itself to three peer messages and is checked only by loopback sessions; wire length of a "
-              "packet is measured, not modelled (C01/C03 own framing).")
+              "exchange itself to three peer messages and is checked only by loopback sessions (several threshold "
+              "crossings per session, each must produce a KEXINIT); wire length of a packet is measured, not "
+              "modelled (C01/C03 own framing); the implementation-level oracles (direct drive and sessions) run "
+              "independently of the translator and of the model.")
 TECHNIQUE = "Coq proof (induction over op / event sequences) + translator + vm_compute differential correspondence"
 
 BIG = 1 << 40
@@ -421,7 +423,8 @@ def session_rekey(ctx, side, attr, value, rounds, direction):
     """The transport `side` ('c'/'s') gets a small threshold; traffic flows client->server
     ('up') or server->client ('down'); every crossing must produce one KEXINIT from `side`, a
     completed exchange (new session key material, flag clear) and intact traffic afterwards."""
-    from paramiko.common import MSG_KEXINIT
+    from paramiko.common import MSG_KEXINIT, MSG_NEWKEYS
+    history = []
     case = {"session": "rekey", "side": side, "attr": attr, "value": value, "rounds": rounds, "direction": direction}
     tc, ts, chan, schan, log = _session(ctx)
     try:
@@ -431,6 +434,7 @@ def session_rekey(ctx, side, attr, value, rounds, direction):
         seq = 0
         for r in range(rounds):
             before = _count(log, side, "out", MSG_KEXINIT)
+            nk_c, nk_s = _count(log, "c", "in", MSG_NEWKEYS), _count(log, "s", "in", MSG_NEWKEYS)
             h_before = t.H
             sent = 0
             # paced traffic until the packetizer asks for new keys
@@ -448,16 +452,27 @@ def session_rekey(ctx, side, attr, value, rounds, direction):
                     ctx.fail("session-no-request", "threshold crossed many times over but need_rekey() stays False",
                              case=case, observed=sent)
                     return
+            history.append({"round": r, "packets_until_request": sent})
+            case["history"] = history
             if not _wait(lambda: _count(log, side, "out", MSG_KEXINIT) == before + 1):
-                ctx.fail("kexinit-not-sent", "re-key requested by the packetizer but the transport sent no KEXINIT "
-                         "within 8 s (idle or busy)", case=case, expected=before + 1,
-                         observed=_count(log, side, "out", MSG_KEXINIT))
+                if r == 0:
+                    ctx.fail("kexinit-not-sent", "re-key requested by the packetizer but the transport sent no "
+                             "KEXINIT within 8 s (idle or busy)", case=case, expected=before + 1,
+                             observed=_count(log, side, "out", MSG_KEXINIT))
+                else:
+                    ctx.fail("second-crossing-no-kexinit", "crossing number %d of the same session (after %d completed "
+                             "threshold-triggered re-keys): need_rekey() is True but the run loop sent no KEXINIT "
+                             "within 8 s" % (r + 1, r), case=case, expected=before + 1,
+                             observed={"kexinits_sent": _count(log, side, "out", MSG_KEXINIT),
+                                       "need_rekey": t.packetizer.need_rekey()})
                 return
-            if not _wait(lambda: (not t.packetizer.need_rekey()) and not tc.in_kex and not ts.in_kex
-                         and t.H != h_before):
+            if not _wait(lambda: (not t.packetizer.need_rekey()) and t.H != h_before
+                         and _count(log, "c", "in", MSG_NEWKEYS) == nk_c + 1
+                         and _count(log, "s", "in", MSG_NEWKEYS) == nk_s + 1):
                 ctx.fail("rekey-not-completed", "KEXINIT sent but the exchange did not complete / flag not cleared "
                          "within 8 s", case=case, observed={"need_rekey": t.packetizer.need_rekey(),
-                                                            "in_kex": [tc.in_kex, ts.in_kex]})
+                                                            "newkeys_in": [_count(log, "c", "in", MSG_NEWKEYS),
+                                                                           _count(log, "s", "in", MSG_NEWKEYS)]})
                 return
             # traffic continues intact under the new keys, without another request right away
             for _ in range(3):
@@ -479,7 +494,7 @@ def session_rekey(ctx, side, attr, value, rounds, direction):
         if n != 1 + rounds:
             ctx.fail("kexinit-count", "number of KEXINITs differs from 1 + number of threshold crossings "
                      "(counters not restarted?)", case=case, expected=1 + rounds, observed=n)
-        ctx.count(("session", tuple(sorted(case.items()))), kind="session-rekey-%s-%s" % (side, direction))
+        ctx.count(("session", side, attr, value, rounds, direction), kind="session-rekey-%s-%s" % (side, direction))
     finally:
         tc.close()
         ts.close()
@@ -616,18 +631,8 @@ def run(ctx):
         profile, script = gen_script(rng, cfg)
         ops, trace = check_direct(ctx, cfg, script, "direct-" + profile)
         cases.append((cfg, script, ops, trace))
-    bad = ctx.model_mismatches("run_ops", "((Z * Z * Z * Z) * list op)",
-                               [(coq_case(cfg, ops), flat(trace)) for cfg, script, ops, trace in cases])
-    for i in bad[:3]:
-        cfg, script, ops, trace = cases[i]
-        ctx.disagree("Packetizer re-key accounting differs from the model",
-                     case={"cfg": list(cfg), "script": [list(s) for s in script], "ops": [list(o) for o in ops]},
-                     impl=flat(trace))
-    for cfg, script, ops, trace in cases[4:6]:
-        ctx.sample({"cfg": list(cfg), "ops": [list(o) for o in ops][:20], "impl_trace(code,need_rekey)": flat(trace)[:40]})
-
     # ---- 2. real loopback sessions ------------------------------------------------------------
-    guarded(ctx, session_rekey, "c", "REKEY_PACKETS", rng.randrange(25, 45), 2, "up")        # send-heavy, idle read
+    guarded(ctx, session_rekey, "c", "REKEY_PACKETS", rng.randrange(25, 45), 3, "up")        # send-heavy, idle read
     guarded(ctx, session_rekey, "s", "REKEY_BYTES", 512 * rng.randrange(12, 24), 2, "up")    # receive-heavy
     guarded(ctx, session_refuser, rng.randrange(22, 40), rng.randrange(5, 12), False)
     guarded(ctx, session_refuser, rng.randrange(22, 40), rng.randrange(8, 14), True)
@@ -638,6 +643,22 @@ def run(ctx):
         for _ in range(3):
             guarded(ctx, session_refuser, rng.randrange(22, 60), rng.randrange(4, 20), False)
         guarded(ctx, session_refuser, rng.randrange(22, 40), rng.randrange(8, 14), True)
+
+    # ---- 3. model correspondence (guarded: the oracles above do not depend on it) -----------------
+    try:
+        bad = ctx.model_mismatches("run_ops", "((Z * Z * Z * Z) * list op)",
+                                   [(coq_case(cfg, ops), flat(trace)) for cfg, script, ops, trace in cases])
+    except Exception as e:  # noqa
+        ctx.disagree("model could not be evaluated (translator aborted or model does not compile): %s"
+                     % (str(e)[-300:],))
+        bad = []
+    for i in bad[:3]:
+        cfg, script, ops, trace = cases[i]
+        ctx.disagree("Packetizer re-key accounting differs from the model",
+                     case={"cfg": list(cfg), "script": [list(s) for s in script], "ops": [list(o) for o in ops]},
+                     impl=flat(trace))
+    for cfg, script, ops, trace in cases[4:6]:
+        ctx.sample({"cfg": list(cfg), "ops": [list(o) for o in ops][:20], "impl_trace(code,need_rekey)": flat(trace)[:40]})
 
 
 def replay(ctx, rep):
